@@ -163,6 +163,35 @@ CHECKS = {
               "cone sums plus unit kernel sum, not by a particular truncation of the kernel window"),
         technique="TLA+ padding/convolution model checked by TLC over all boundary-mode combinations; exact column replay; structure-from-spec for cone weights",
         design="9/C09"),
+    "C08": dict(
+        text=("FE.tla (over GridOps.tla) states AssembleGeneral operationally (triplets with rows/cols from the dof "
+              "connectivity, every entry with a constrained row or column removed, diagonal appended, duplicates summed) and "
+              "declaratively (x_e K_e scattered through the geometric corner relation, constrained rows/columns zero, "
+              "bcdiagval on the diagonal); TLC checks equality on the zero, every unit and a ramp scaling vector (complete: "
+              "affine) for non-symmetric integer element matrices, ndof 1..3, four constrained-dof sets and 2D/3D grids, and "
+              "refutes row/column-swap and rows-only-bc variants. Element matrices are obtained by exact tensor-product "
+              "integration in rationals (sizes from {1/2,1,3/2,2}, E in {1,2}, nu in {0,1/4,1/3}, plane stress/strain/3D); TLC "
+              "checks symmetry, exact annihilation of all 3/6 rigid-body modes, u'Ku = V stress.strain >= 0 for affine fields, "
+              "total mass rho*V per direction, Poisson constants and energy of a linear field. The assembled matrices are "
+              "compared exactly with AssembleGeneral (csc/csr, with add_constant), the element matrices with "
+              "AssembleStiffness/Mass/Poisson; [O] symmetry, positive semi-definiteness, rigid-body null space, total mass and "
+              "Poisson properties of assembled matrices on larger random meshes are evaluated numerically."),
+        note=(TLC_BASE + "; the 2-point Gauss rule of the implementation is exact for these integrands, so its result must "
+              "equal the exact integral to rounding (rtol 1e-12); eigenvalue-based semi-definiteness is an observation predicate"),
+        technique="TLA+ exact-rational FE model checked by TLC; exact comparison of assembled and element matrices; numeric observations",
+        design="9/C08"),
+    "C12": dict(
+        text=("FE.tla: for affine displacement fields with rational gradients TLC checks that the centroid strain operator "
+              "returns the symmetric gradient with engineering shear, that stress = D strain, that V stress.strain = u'Ku with "
+              "the exactly integrated stiffness, that the thermal load has zero resultant force and moment and equals K times "
+              "the free expansion in plane stress and 3D, and (OpTranspose) that the nodal scatter operator is the transpose of "
+              "the element gather operator. Strain, Stress, ElementAverage, ElementOperation (all operator shapes incl. the "
+              "per-node operator repeated over dofs), NodalOperation and ThermoMechanical are compared with TLC's exact values "
+              "on single elements and on multi-element meshes with non-unit element sizes."),
+        note=(TLC_BASE + "; in 2D the implementation's Stress carries the out-of-plane size, which is applied to the "
+              "specification's stress as well"),
+        technique="TLA+ exact-rational FE model checked by TLC; exact comparison with the element-level modules",
+        design="9/C12"),
 }
 
 
